@@ -492,3 +492,4 @@ Proof.
   - rewrite (shm_read_ok c1 [] (chain_bytes c1) eq_refl), B1.
     rewrite (shm_read_ok c2 (takeN k obj) (dropN k obj)); [exact B2| rewrite B2, takeN_dropN; reflexivity].
 Qed.
+
